@@ -116,6 +116,12 @@ pub fn run_input<K: Kmer + Send + Sync + serde::Serialize + serde::de::Deseriali
             }
         }
     }
+    if w.graphq && raw != pruned {
+        // the queries on the graph the library builds when the thresholded table is NOT pruned first: some extensions dangle
+        if let Ok(un) = guard(|| project_base(&compress_rows::<K>(&raw, inp.stranded, inp.mode, "hash"))) {
+            ev_graphq::<K>(sink, r, inp, &un, "unpruned");
+        }
+    }
     if w.iter {
         ev_iter::<K>(sink, r, inp, &nodes);
     }
